@@ -73,7 +73,15 @@ Definition c02_holds (client_optype : string) (client_vars : list (string * json
     forallb (fun kv =>
       str_mem (fst kv) (oc_declared c) &&
       (String.eqb (fst kv) "id" && negb (oc_root c) ||
-       match jget (fst kv) client_vars with Some v => json_eqb v (snd kv) | None => false end)) (oc_passed c))
+       match jget (fst kv) client_vars with Some v => json_eqb v (snd kv) | None => false end)) (oc_passed c) &&
+    (* ... and every value the client bound to a variable the request declares travels with it,
+       an explicit null included (the follow-up fetch's own id aside) *)
+    forallb (fun n =>
+      (String.eqb n "id" && negb (oc_root c)) ||
+      match jget n client_vars with
+      | Some v => match jget n (oc_passed c) with Some v' => json_eqb v v' | None => false end
+      | None => true
+      end) (oc_declared c))
     (ob_calls o).
 
 (* C04 without faults is C01's data equality; with faults: no extra key anywhere *)
